@@ -33,6 +33,9 @@ def migLine (line : String) : String :=
       let out := copyLogs { emptyGuard := Generated.copyLogsEmptyGuard } src { first := 0, entries := [] } bbI (parseCancel cancel)
       let sizes := ",".intercalate (out.batches.map (fun b => toString b.length))
       s!"{resS out.res} {out.dst.firstIndex} {out.dst.lastIndex} {out.dst.entries.length} {logDigest out.dst.entries} batches={sizes} progress={if prog == "p0" then "nil" else "closed"}"
+  | ["copyfail", _, prog] =>
+    -- a failing source: the error is returned, the progress channel is closed all the same (deferred close)
+    s!"err progress={if prog == "p0" then "nil" else "closed"}"
   | "copystable" :: pol :: cancel :: prog :: toks =>
     let step (acc : Option (Stable × List Bytes × List Bytes)) (t : String) : Option (Stable × List Bytes × List Bytes) :=
       acc.bind fun (s, xk, xi) =>
